@@ -1,13 +1,16 @@
 (* C03 - pause/resume and suspend/release do not change the recorded data.
 
-   (b) DATA EQUIVALENCE, proved for pause/resume (C03_data_equivalence_* below, Proofs/RE_Points*.v): for every
-   open-loop checkpointed plan (any number of points, bundles, streams, runs; class = Engine/PointSpec.v), devices
-   that do not fail and whose readings are determined by the `read` message, and EVERY well-formed schedule with
-   hard pause requests at arbitrary moments (any number, also during a replay) and resume() calls, a finished
-   execution has recorded exactly the (run, stream, seq_num, data) events and the RunStop documents of the
-   reference semantics -- hence the same as the uninterrupted execution -- and nothing raised.
-   Still decided only by the differential oracle (harness/props/C03.py): suspend/release and deferred pauses,
-   plans outside the class (stage/unstage, rewindable toggles, monitors, closed-loop plans), record_interruptions.
+   (b) DATA EQUIVALENCE, proved (C03_data_equivalence_* below, Proofs/RE_Points*.v): for every open-loop
+   checkpointed plan (any number of points, bundles, streams, runs; class = Engine/PointSpec.v), devices that do not
+   fail and whose readings are determined by the `read` message, and EVERY well-formed schedule with pause requests
+   (hard, or deferred to the next checkpoint) + resume() and suspension requests (no pre/post plans) + releases at
+   arbitrary moments, any number of times, also during a replay -- except that no new request arrives while a
+   suspension keeps rewinding switched off (the window that is C11's subject) --, a finished execution has recorded
+   exactly the (run, stream, seq_num, data) events and the RunStop documents of the reference semantics -- hence the
+   same as the uninterrupted execution -- and nothing raised.
+   Still decided only by the differential oracle (harness/props/C03.py): requests inside a suspension's
+   non-rewindable window, suspenders with pre/post plans, plans outside the class (stage/unstage, rewindable
+   toggles, monitors, several open runs at once, closed-loop plans), record_interruptions.
    (a) Proved about the bundler of Engine/RE.v, for all bundler states:
      (a) a checkpoint snapshots every sequence counter; a rewind puts every snapshotted counter of a data stream
          back (the 'interruptions' stream keeps counting), whatever create/read/save/drop did in between, cancels the
@@ -68,7 +71,7 @@ Print Assumptions C03_partial.
    every other event left in place, changes neither the final (run, stream, seq_num) -> data map nor any RunStop.
    As written it is FALSE on the model (C03_full_refuted): resuming costs task steps, a schedule with the same task
    steps does not finish the plan.  The corrected statement quantifies over well-formed schedules instead of
-   "the same schedule plus pairs": C03_data_equivalence_pause_resume. *)
+   "the same schedule plus pairs": C03_data_equivalence_interruptions. *)
 Definition final_events := PointSpec.final_events.
 Definition stops := PointSpec.stops.
 Definition C03_full : Prop :=
@@ -108,9 +111,10 @@ Theorem C03_data_equivalence_reference :
 Proof. exact c03_run_matches_reference. Qed.
 Print Assumptions C03_data_equivalence_reference.
 
-(* any two finished executions of the plan -- e.g. one with pause/resume at arbitrary moments and the uninterrupted
-   one -- recorded the same (run, stream, seq_num) -> data map and the same RunStop documents; no call raised *)
-Theorem C03_data_equivalence_pause_resume :
+(* any two finished executions of the plan -- e.g. one with pause/resume and suspend/release at arbitrary moments and
+   the uninterrupted one -- recorded the same (run, stream, seq_num) -> data map and the same RunStop documents; no
+   call raised *)
+Theorem C03_data_equivalence_interruptions :
   forall (P : Type) (presume : P -> input -> outcome P) (plan_of : nat -> P) (rk : nat) (rdm : msg -> Z) (rv : val) (pid : nat)
          (L : list msg) (SD : list doc)
          (D1 : Type) (dev1 : D1 -> nat -> devmeth -> D1 * devres) (d1 : D1) (paus1 stag1 : list nat) (evs1 : list event)
@@ -126,7 +130,7 @@ Theorem C03_data_equivalence_pause_resume :
     (forall x, In x (final_events (snd r1)) <-> In x (final_events (snd r2))) /\
     stops (snd r1) = stops (snd r2) /\ no_raise (snd r1) = true /\ no_raise (snd r2) = true.
 Proof. exact c03_data_equivalence. Qed.
-Print Assumptions C03_data_equivalence_pause_resume.
+Print Assumptions C03_data_equivalence_interruptions.
 
 (* at every moment of such an execution, finished or not: only events of the reference run, nothing raised *)
 Theorem C03_data_equivalence_every_prefix :
@@ -142,17 +146,24 @@ Theorem C03_data_equivalence_every_prefix :
 Proof. exact c03_every_prefix_safe. Qed.
 Print Assumptions C03_data_equivalence_every_prefix.
 
-(* non-vacuity: four executions recorded from the real RunEngine (uninterrupted, paused after a save, paused twice --
-   once during the replay --, paused inside a read) are reproduced by the model, meet every hypothesis above, and the
-   interrupted ones do re-issue reads and re-emit an event *)
+(* non-vacuity: eight executions recorded from the real RunEngine (uninterrupted; paused after a save; paused twice,
+   once during the replay; paused inside a read; suspended and released; deferred pause; suspended, released and
+   paused during the suspender's replay; suspended while paused) are reproduced by the model, meet every hypothesis
+   above, and the interrupted ones do re-issue reads and re-emit an event *)
 Example C03_data_equivalence_nonvacuous :
   spec_docs 0 ex_rdm ex_L = Some ex_SD /\ follows TP (t_resume ex_tapes) (VUid 0) ex_L (t_plan_of 0) /\
   (forall ledger, dev_typed nat (ty_dev ledger)) /\
   (hyps_ok ex_plain_ledger ex_plain_evs' = true /\ hyps_ok ex_after_save_ledger ex_after_save_evs' = true /\
-   hyps_ok ex_twice_ledger ex_twice_evs' = true /\ hyps_ok ex_in_read_ledger ex_in_read_evs' = true) /\
+   hyps_ok ex_twice_ledger ex_twice_evs' = true /\ hyps_ok ex_in_read_ledger ex_in_read_evs' = true /\
+   hyps_ok ex_susp_ledger ex_susp_evs' = true /\ hyps_ok ex_defer_ledger ex_defer_evs' = true /\
+   hyps_ok ex_susp_pause_ledger ex_susp_pause_evs' = true /\ hyps_ok ex_pause_susp_ledger ex_pause_susp_evs' = true) /\
   check ex_tapes ex_after_save_ledger [2] [0; 3] false ex_after_save_evs ex_after_save_obs = true /\
+  check ex_tapes ex_susp_pause_ledger [2] [0; 3] false ex_susp_pause_evs ex_susp_pause_obs = true /\
   List.length (PointSpec.final_events ex_plain_obs) = 2 /\ List.length (PointSpec.final_events ex_after_save_obs) = 3 /\
+  In (OState Running Suspending) ex_susp_pause_obs /\ In (OState Running Pausing) ex_susp_pause_obs /\
   ((forall x, In x (PointSpec.final_events ex_after_save_obs) <-> In x (PointSpec.final_events ex_plain_obs)) /\
-   PointSpec.stops ex_after_save_obs = PointSpec.stops ex_plain_obs /\ no_raise ex_after_save_obs = true).
+   PointSpec.stops ex_after_save_obs = PointSpec.stops ex_plain_obs /\ no_raise ex_after_save_obs = true) /\
+  ((forall x, In x (PointSpec.final_events ex_susp_pause_obs) <-> In x (PointSpec.final_events ex_plain_obs)) /\
+   PointSpec.stops ex_susp_pause_obs = PointSpec.stops ex_plain_obs /\ no_raise ex_susp_pause_obs = true).
 Proof. exact c03_equivalence_nonvacuous. Qed.
 
